@@ -279,8 +279,10 @@ def main():
         sys.exit(2)
     body = m.group(1)
     queries = []
+    n_paths = 0
     try:
         paths, defs = translate(body, p, consts, mir, "mul_by_a")
+        n_paths += len(paths)
         head = "(set-logic ALL)\n(declare-const x Int)\n(assert (and (<= 0 x) (< x %d)))\n" % p + "\n".join(defs) + "\n"
 
         def wrong(k):
@@ -298,6 +300,7 @@ def main():
     if mb:
         try:
             bpaths, bdefs = translate(mb.group(1), p, consts, mir, "add_b")
+            n_paths += len(bpaths)
             bhead = "(set-logic ALL)\n(declare-const x Int)\n(assert (and (<= 0 x) (< x %d)))\n" % p + "\n".join(bdefs) + "\n"
             alts = ["(and %s (not (= (mod %s %d) (mod (+ x %d) %d))))" % (" ".join(c) if c else "true", r_, p, int(consts["b"]), p) for c, r_ in bpaths]
             queries.append(("overridden add_b(x) = x + COEFF_B for every x in [0,p)", bhead + "(assert (or %s))\n(check-sat)\n" % " ".join(alts), "unsat", True))
@@ -372,13 +375,38 @@ def main():
                 inconclusive.append("%s: expected %s" % (name, expect))
         else:
             inconclusive.append("%s: solvers disagree or fail: %s" % (name, verdicts))
+    # concrete companion for the ASSUMPTION of the encoding (ark_ff::Fp's ring contract for +, -, *, neg, double on this
+    # field configuration): the real routine is evaluated natively on structured elements -- Montgomery residues next to
+    # 0, p, 2^255, 2^256 - p and p/2, small integers and their negatives, powers of two -- and compared with a*x mod p
+    # computed here with Python integers (not with the field's own multiplication)
+    rinv = pow(1 << 256, -1, p)
+    residues = set()
+    for j in range(0, 9):
+        for base in (0, p, 1 << 255, (1 << 256) - p, p // 2, (p + 1) // 2, (1 << 256) % p, 1 << 128, 1 << 192):
+            residues.add((base + j) % p)
+            residues.add((base - j) % p)
+    xs_struct = sorted(set([(m * rinv) % p for m in residues] + [j % p for j in range(0, 9)] + [(-j) % p for j in range(1, 9)] + [(1 << k) % p for k in (63, 64, 127, 128, 191, 192, 254, 255)] + [(seed * 0x9e3779b97f4a7c15 + 77) % p]))
+    rp = sh([SYMARK, "zorro-mul-by-a"] + [str(x) for x in xs_struct])
+    got = re.findall(r"x=(\d+) mul_by_a\(x\)=(\d+)", rp.stdout)
+    native_bad = [(int(x), int(y)) for x, y in got if int(y) != (a * int(x)) % p]
+    native_checked = len(got)
+    if native_checked != len(xs_struct):
+        inconclusive.append("native evaluation of mul_by_a returned %d of %d values" % (native_checked, len(xs_struct)))
+    if native_bad:
+        path = os.path.join(VERIF, "replays", "C14", "mul_by_a_structured.json")
+        os.makedirs(os.path.dirname(path), exist_ok=True)
+        json.dump({"property": "C14", "what": "mul_by_a(x) differs from a*x mod p (Python integers) at structured field elements", "x": [str(x) for x, _ in native_bad[:8]], "got": [str(y) for _, y in native_bad[:8]], "expected": [str((a * x) % p) for x, _ in native_bad[:8]], "cmd": "%s zorro-mul-by-a %s" % (SYMARK, " ".join(str(x) for x, _ in native_bad[:8]))}, open(path, "w"), indent=1)
+        violations.append(("mul_by_a(x) = a*x mod p on %d structured elements (native, against integer arithmetic): %d differ, first x = %d" % (native_checked, len(native_bad), native_bad[0][0]), path))
     wall = time.time() - t0
     ev = {
         "property_id": "C14", "tier": tier, "seed": seed, "level": "model_checking",
         "coverage": {
             "evaluations": len(queries) * len(SOLVERS), "distinct_nontrivial": len(queries),
             "rule": "one obligation = one SMT query (integer arithmetic mod p) discharged by three solvers; the mul_by_a query quantifies over every field element, the others are ground relations over the constants exported by the compiled crate",
-            "samples": results[:4], "obligations": len(obligations), "discharged": sum(1 for o in obligations if o),
+            "samples": results[:4], "native_structured_elements": native_checked, "native_structured_differ": len(native_bad),
+            "states": max(1, n_paths), "transitions": max(1, len(queries)), "traces_validated_against_impl": native_checked,
+            "states_rule": "states = paths of the MIR body of mul_by_a (and of an overridden add_b) that were translated; transitions = SMT obligations; traces validated = structured field elements on which the real routine was evaluated natively and compared with a*x mod p in integer arithmetic",
+            "obligations": len(obligations), "discharged": sum(1 for o in obligations if o),
             "solver_time_s": round(solver_s, 2), "functions_encoded": ["curve::zorro::g1::Parameters::mul_by_a (from the MIR dump of /repo's current tree; calls modelled by ark_ff::Fp's documented ring contract on representatives in [0,p))"],
             "bounds": "none for mul_by_a (loop-free; every path of the MIR body is followed -- branches on field / raw Montgomery-limb comparisons fork the path -- for all x in [0,p)); <= 64 paths, <= 64 blocks per path; an overridden add_b is checked the same way against x + COEFF_B; ground relations are exact",
             "outside_claim": "primality of the base-field modulus p and of r, and #E(F_p) = r: number-theoretic facts about 255-bit constants that an SMT solver cannot decide and for which no certificate generator is available offline; only the necessary Hasse-interval condition is checked",
